@@ -434,6 +434,111 @@ def run_replacement(kind, as_process, stim, rng_seed, edge="pos", reruns=1):
     return trace
 
 
+def check_legacy_sync_process(rng, out):
+    """The deprecated-but-supported generator API: add_sync_process(proc, domain="slow") stands in for a register of
+    domain "slow" while an unrelated "sync" clock runs beside it; after every slow tick the process output equals
+    the register."""
+    import warnings
+    from amaranth.hdl import Module, Signal, ClockDomain, Period
+    from amaranth.sim import Simulator
+    m = Module()
+    m.domains.sync = ClockDomain("sync", reset_less=True)
+    m.domains.slow = ClockDomain("slow", reset_less=True)
+    q, outp, other = Signal(8), Signal(8), Signal(8)
+    m.d.slow += q.eq(q + 1)
+    m.d.sync += other.eq(other + 1)
+    keep = Signal()
+    m.d.comb += keep.eq(outp[0])
+    sp, fp_ = rng.choice([40, 100, 300]), rng.choice([4, 10, 30, 46])
+    sim = Simulator(m)
+    sim.add_clock(Period(fs=sp), domain="slow")
+    sim.add_clock(Period(fs=fp_), domain="sync", phase=Period(fs=rng.choice([1, 3, fp_ // 2])))
+    bad = []
+
+    def proc():
+        v = 0
+        while True:                      # (the process is first resumed at the first active edge of its domain)
+            v = (v + 1) & 0xff
+            yield outp.eq(v)
+            yield
+
+    async def tb(ctx):
+        for n in range(12):
+            await ctx.tick("slow")
+            a, b_ = ctx.get(q), ctx.get(outp)
+            out["evaluations"] += 1
+            if a != b_:
+                bad.append(dict(slow_period_fs=sp, sync_period_fs=fp_, slow_tick=n + 1, register=a, process_output=b_))
+                return
+    with warnings.catch_warnings():
+        warnings.simplefilter("ignore")
+        sim.add_sync_process(proc, domain="slow")
+        sim.add_testbench(tb)
+        try:
+            sim.run_until(Period(fs=sp * 14))
+        except Exception as ex:
+            if exc_origin(ex) != "repo":
+                raise
+            bad.append(dict(exception=repr(ex)[:200]))
+    out["hist"]["legacy-sync-process"] = out["hist"].get("legacy-sync-process", 0) + 1
+    for b in bad:
+        out["violations"].append({"mechanism": "circuit-vs-equivalent-process:legacy-add_sync_process", "detail": b})
+
+
+def check_clock_phase(rng, out):
+    """add_clock(period, phase=...): the clock first toggles at its phase (an explicit phase of zero included) and
+    then every half period.  Observed through a counter in the clocked domain read at instants that are not toggle
+    instants: the number of active edges up to T is a function of (period, phase, T) alone."""
+    from amaranth.hdl import Module, Signal, ClockDomain, Period
+    from amaranth.sim import Simulator
+    period = rng.choice([10, 12, 1000, 83333332]) * 2          # femtoseconds, even
+    phase = rng.choice([None, 0, 0, 1, period // 2, period // 2 + 1, period, 3 * period + 1])
+    edge = rng.choice(["pos", "neg"])
+    m = Module()
+    cd = ClockDomain("sync", clk_edge=edge, reset_less=True)
+    m.domains.sync = cd
+    count = Signal(16)
+    m.d.sync += count.eq(count + 1)
+    sim = Simulator(m)
+    if phase is None:
+        sim.add_clock(Period(fs=period))
+    else:
+        sim.add_clock(Period(fs=period), phase=Period(fs=phase))
+    ph = period // 2 if phase is None else phase
+    half = period // 2
+    bad = []
+
+    def active_edges_upto(t):
+        # toggles at ph + k*half (k = 0, 1, ...); the clock starts low, so even k are rising edges
+        if t < ph:
+            return 0
+        k_last = (t - ph) // half
+        n_rising, n_falling = k_last // 2 + 1, (k_last + 1) // 2
+        return n_rising if edge == "pos" else n_falling
+
+    async def tb(ctx):
+        t = 0
+        for _ in range(12):
+            step = rng.randrange(1, 3 * period)
+            t += step
+            while t >= ph and (t - ph) % half == 0:       # never look exactly at a toggle instant
+                t += 1
+                step += 1
+            await ctx.delay(Period(fs=step))
+            got, exp = ctx.get(count), active_edges_upto(t) & 0xffff
+            out["evaluations"] += 1
+            if got != exp or ctx.elapsed_time().femtoseconds != t:
+                bad.append(dict(period_fs=period, phase_fs=phase, edge=edge, at_fs=t, elapsed_fs=ctx.elapsed_time().femtoseconds,
+                                active_edges_counted=got, expected=exp))
+                return
+    sim.add_testbench(tb)
+    sim.run()
+    out["hist"]["clock-phase:" + ("default" if phase is None else "zero" if phase == 0 else "other")] = \
+        out["hist"].get("clock-phase:" + ("default" if phase is None else "zero" if phase == 0 else "other"), 0) + 1
+    for b in bad:
+        out["violations"].append({"mechanism": "clock-first-toggle-or-period", "detail": b})
+
+
 def check_replacements(rng, out):
     for kind, edge in (("adder", "pos"), ("counter-sync", "pos"), ("counter-async", "pos"), ("counter-sync", "neg"), ("counter-async", "neg")):
         if kind == "adder":
@@ -526,6 +631,10 @@ def run_shard(spec):
             out["samples"].append({"case": case, "trace_head": ref_trace[:3]})
         if n % 8 == 0:
             check_replacements(rng, out)
+        if n % 2 == 0:
+            check_clock_phase(rng, out)
+        if n % 4 == 1:
+            check_legacy_sync_process(rng, out)
         if len(out["violations"]) > 20:
             break
     out["extra"]["distinct_orders_observed"] = len(instrument.PermSet.orders_seen)
